@@ -51,6 +51,72 @@ UNLINK_WANT = {
 LINK_WANT = ['(i.next = this.head)', 'if this.head: (this.head.prev = i)', '(this.head = i)', 'if !this.tail: (this.tail = i)']
 
 
+SHAPE_DECIDED = set()
+
+
+def shape_rule(ctx, u, lab, un, ln, touch, funcs):
+    """unlink_item / link_item / touch_item folded on every doubly linked list of up to 5 entries with the
+    item at every position; True when all three were decided and are right"""
+    from shape import Shape, Node, make_list, check_list, ShapeUndecided, NullDeref
+    R = 'C12-R6'
+    decided = True
+
+    def arg_for(f, node):
+        p = params_of(f)
+        if len(p) != 1:
+            raise ShapeUndecided('%s takes %d parameters' % (f.get('name'), len(p)))
+        return ('objref', node) if (qtype(p[0]) or '').rstrip().endswith('&') else node
+
+    def trial(f, n, pos, fresh):
+        this, nodes = make_list(n)
+        it = Node('x') if fresh else nodes[pos]
+        sh = Shape(u, funcs)
+        sh.call(f, this, [arg_for(f, it)])
+        return this, nodes, it
+    cases = {'unlink': 0, 'link': 0, 'touch': 0}
+    # unlink: the remaining entries keep their order, both ways; the item's own links are cleared
+    verdict = {}
+    for what, f in (('unlink', un), ('link', ln), ('touch', touch)):
+        if f is None:
+            continue
+        bad = None
+        und = None
+        for n in range(0 if what == 'link' else 1, 6):
+            for pos in (range(1) if what == 'link' else range(n)):
+                try:
+                    this, nodes, it = trial(f, n, pos, what == 'link')
+                except ShapeUndecided as e:
+                    und = str(e)
+                    break
+                except NullDeref as e:
+                    bad = bad or 'with %d entries and the item at position %d, `%s` dereferences a null pointer' % (n, pos, e)
+                    continue
+                cases[what] += 1
+                if what == 'unlink':
+                    want = [x for x in nodes if x is not it]
+                    r = check_list(this, want)
+                    if r is None and (it.f['prev'] is not None or it.f['next'] is not None):
+                        r = 'the unlinked item keeps prev=%s next=%s (link_item relies on both being null)' % (it.f['prev'], it.f['next'])
+                elif what == 'link':
+                    r = check_list(this, [it] + nodes)
+                else:
+                    r = check_list(this, [it] + [x for x in nodes if x is not it])
+                if r and not bad:
+                    bad = 'on a list of %d entries %s (item %s): %s' % (n, [x.name for x in nodes], it.name, r)
+            if und:
+                break
+        key = '%s|%s|shapes' % (lab, what)
+        if und:
+            ctx.undecided(R, key, f, '%s_item could not be folded on list shapes (%s)' % (what, und))
+            decided = False
+        elif bad:
+            ctx.bad(R, key, f, '%s_item %s: the recency list is no longer a well-formed doubly linked list, so a later eviction returns the wrong entry or follows a stale pointer' % (what, bad))
+            decided = False
+        else:
+            ctx.ok(R, key, f, '%s_item leaves a well-formed list (forward and backward order, end links, cleared item links) on all %d list shapes up to 5 entries' % (what, cases[what]))
+    return decided
+
+
 def check_class(ctx, u, cls, fs, kind):
     """kind: 'set' or 'map'"""
     byname = {}
@@ -58,12 +124,16 @@ def check_class(ctx, u, cls, fs, kind):
         byname.setdefault(f.get('name'), []).append(f)
     lab = cls
 
-    # ---- R2 list surgery
-    R = 'C12-R2'
     un = byname.get('unlink_item', [None])[0]
     ln = byname.get('link_item', [None])[0]
     if un is None or ln is None:
         raise AnalysisBroken('%s: link_item/unlink_item not found' % cls)
+    # ---- R6 list surgery by shape evaluation (E-SHAPE)
+    with ctx.section('C12-R6', 'C12'):
+        if shape_rule(ctx, u, lab, un, ln, byname.get('touch_item', [None])[0], {k_: v_[0] for k_, v_ in byname.items() if len(v_) == 1}):
+            SHAPE_DECIDED.add(lab)
+    # ---- R2 list surgery
+    R = 'C12-R2'
     for f in (un, ln):
         check_no_goto(f)
     ctx.fn(lab + '::unlink_item')
@@ -178,7 +248,14 @@ def check_class(ctx, u, cls, fs, kind):
     er = byname.get('erase', [None])[0]
     if er is not None:
         sub = [x for x in walk(body_of(er)) if x.get('kind') == 'CompoundAssignOperator' and canon(x['inner'][0]) == 'this.total_size' and x.get('opcode') == '-=']
-        ctx.check(len(sub) == 1 and nf(sub[0]['inner'][1]).endswith('.size'), R, lab + '::erase|total-decreased', er, 'total_size -= item.size', 'erase does not subtract the entry size')
+        from poly import Poly as _Poly
+        PE_ = _Poly(er, u)
+        amt = PE_.poly(sub[0]['inner'][1]) if len(sub) == 1 else None
+        other_w = [x for x in walk(body_of(er)) if x.get('kind') in ('BinaryOperator', 'CompoundAssignOperator') and x.get('opcode') in ('=', '+=') and canon(x['inner'][0]) == 'this.total_size']
+        if len(sub) != 1 and (other_w or len(sub) > 1):
+            ctx.undecided(R, lab + '::erase|total-decreased', er, 'erase adjusts total_size in a form the rule does not read')
+        else:
+            ctx.check(amt is not None and len(amt) == 1 and list(amt.values()) == [1] and len(list(amt)[0]) == 1 and list(amt)[0][0].endswith('.size'), R, lab + '::erase|total-decreased', er, 'total_size -= item.size', 'erase does not subtract the entry size')
     ev = byname.get('evict_object', [None])[0]
     if ev is not None:
         sub = [x for x in walk(body_of(ev)) if x.get('kind') == 'CompoundAssignOperator' and canon(x['inner'][0]) == 'this.total_size' and x.get('opcode') == '-=']
@@ -304,6 +381,9 @@ def run(ctx):
     ctx.rule('C12-R2', 'list surgery: unlink_item has the four fix-ups and two resets, is self-dual under head<->tail/prev<->next, resets last; link_item is push-front', 8)
     ctx.rule('C12-R3', 'pairing: items.erase is dominated by unlink_item and followed by no item read; every entry-size write has the matching total_size adjustment; successful touch/change_size reach the size update; clear resets everything', 24)
     ctx.rule('C12-R4', 'swap exchanges every data member; the member set is {head, tail, items, total_size}', 4)
+    ctx.rule('C12-R6', 'list surgery by shape evaluation (E-SHAPE): unlink_item, link_item and touch_item folded on every doubly linked list of up to 5 entries with the item at every position leave the list well-formed in both directions with the expected order', 8)
+    SHAPE_DECIDED.clear()
+    ctx.defer({'C12-R2'}, 'C12-R6', only=lambda k_: ('|unlink|' in k_ or '|link|' in k_) and k_.split('|')[0] in SHAPE_DECIDED or (k_.startswith('LRUSet/LRUMap|') and len(SHAPE_DECIDED) == 4))
     ctx.rule('C12-R5', 'recency table: which operations refresh recency (insert-existing, at, touch, change_size(touch)) and which do not (peek, item_size, count, size, LRUSet::change_size); the head shortcut skips only the relink', 18)
     R = 'C12-R1'
     okall = True
